@@ -536,10 +536,24 @@ func isExtremumSelector(f *ssa.Function) bool {
 
 // loopBlocks: blocks of the loop headed by hdr (natural loop: hdr dominates them and they reach hdr).
 func loopBlocks(hdr *ssa.BasicBlock) map[*ssa.BasicBlock]bool {
+	// the natural loop: the blocks that reach a back edge into hdr without passing hdr again (a block after an inner
+	// loop reaches the inner header again only through the enclosing loop's back edge - it is not part of the inner loop)
 	out := map[*ssa.BasicBlock]bool{hdr: true}
-	for _, b := range hdr.Parent().Blocks {
-		if hdr.Dominates(b) && b != hdr && reach(b, nil, nil)[hdr] {
-			out[b] = true
+	var work []*ssa.BasicBlock
+	for _, p := range hdr.Preds {
+		if hdr.Dominates(p) && !out[p] {
+			out[p] = true
+			work = append(work, p)
+		}
+	}
+	for len(work) > 0 {
+		b := work[len(work)-1]
+		work = work[:len(work)-1]
+		for _, p := range b.Preds {
+			if !out[p] && hdr.Dominates(p) {
+				out[p] = true
+				work = append(work, p)
+			}
 		}
 	}
 	return out
@@ -979,7 +993,7 @@ func (d *dt1) taintedUses(f *ssa.Function, v ssa.Value, label string, depth int)
 func enclosingLoopHeader(b *ssa.BasicBlock) *ssa.BasicBlock {
 	// the innermost block that dominates b, and that b can reach (a loop header)
 	for cur := b; cur != nil; cur = cur.Idom() {
-		if cur != b && isLoopHeader(cur) && reach(b, nil, nil)[cur] && cur.Dominates(b) {
+		if cur != b && isLoopHeader(cur) && cur.Dominates(b) && loopBlocks(cur)[b] {
 			return cur
 		}
 		if cur == b && inCycle(b) {
